@@ -20,6 +20,8 @@ HIST_NOTE = ('Trusted: TLC; structural comparison of values; histories bounded t
 VAL_NOTE = ('Trusted: TLC; sha1 and json.dumps injective on distinct trees; scalars are a fixed pool of typed atoms; grammar bounded '
             '(depth <= 3, <= 2 elements per collection).')
 
+PURE_NOTE = ('Trusted: TLC; POSIX path semantics (C18) / regular-expression parsing of the rendered diagram (C20); bounded grammars.')
+
 CHECKS = {
     'C01': ('LabRunAbs C01_Keys/C01_Values/C01_Digest: TLC checks them on LabRun (all DAGs on 3 tasks x request lists x '
             'cache pre-states x backends x worker counts) through the refinement mapping, then every execution of the real '
@@ -68,11 +70,19 @@ CHECKS = {
     'C16': ('LabRunAbs C16_Env: facts recorded inside run() on real serial/fork/spawn runs (pid, parent, thread, visibility of a '
             'parent-mutated global, fresh import) and the filtered context, judged by the monitor; stored entries compared '
             'between two runs under different contexts.', '7 C16'),
+    'C18': ('LocalPaths: TLC checks, for every key / filename token sequence (dot segments, separators, empty strings, absolute paths, '
+            'names of symlinks pointing outside, to siblings, dangling) x every mode, that the transcribed validation + symlink resolution '
+            'confines what exists / file_handle / delete touch; every case is replayed on the real LocalStorage in a fresh sandbox with an '
+            'audit hook and snapshots; LocalPathsObs evaluates ObsConfined on the observed touched set.', '7 C18'),
     'C19': ('LabRunAbs C19_ExactlyOnce: TLC checks the log-queue design in LabRun (records precede the outcome, drains before '
             'and after the wait); on the code, emitted logger records / stdout / stderr lines vs what the caller\'s handlers '
             'received, on virtual and real processes, every print/flush pattern of the family.', '7 C19'),
     'C17': ('LabRunAbs C17_Retained/Prompt/Captured/EmptyAtReturn/OnlyNew with failures; the runner\'s held set is logged '
             'by hooks after every completion and release.', '7 C17'),
+    'C20': ('TaskDiagram: TLC checks that the transcribed work-list traversal of TaskStructure.build yields exactly the reachable types and '
+            '<<from, parameter, to, many>> relationships for every input of the grammar (shared and duplicated dependencies, collections '
+            'nested to depth 3); the real build_task_diagram output is parsed back and judged by TaskDiagramObs (one block per type with all '
+            'parameters and run(), one arrow per relationship, "many" exactly when expected, deterministic across interpreters).', '7 C20'),
 }
 
 
@@ -88,15 +98,17 @@ def main():
             'thorough_cmd': f'./check {pid} --tier thorough',
             'evidence_file': f'/verif/evidence/{pid}.json',
             'replay_cmd_template': './check --replay {path}',
-            'engine': 'tlc-save' if pid in ('C12', 'C13') else ('tlc-history' if pid in ('C06', 'C08') else ('tlc-values' if pid in ('C07', 'C09', 'C15') else 'tlc-labrun')),
+            'engine': 'tlc-save' if pid in ('C12', 'C13') else ('tlc-history' if pid in ('C06', 'C08') else ('tlc-values' if pid in ('C07', 'C09', 'C15') else ('tlc-pure' if pid in ('C18', 'C20') else 'tlc-labrun'))),
             'level_claimed': {'category': 'model_checking', 'text': text, 'design_ref': f'DESIGN.md section {ref}'},
-            'level_note': SAVE_NOTE if pid in ('C12', 'C13') else (HIST_NOTE if pid in ('C06', 'C08') else (VAL_NOTE if pid in ('C07', 'C09', 'C15') else LABRUN_NOTE)),
+            'level_note': SAVE_NOTE if pid in ('C12', 'C13') else (HIST_NOTE if pid in ('C06', 'C08') else (VAL_NOTE if pid in ('C07', 'C09', 'C15') else (PURE_NOTE if pid in ('C18', 'C20') else LABRUN_NOTE))),
             'technique': ('explicit TLA+ spec (SaveProtocol) model-checked with TLC + exhaustive fault/crash injection into the real save, observations judged by the spec (SaveObs)'
                           if pid in ('C12', 'C13') else
                           'explicit TLA+ spec (CacheMap/CacheHistory) explored with TLC; TLC-generated call histories replayed on real Labs and validated call by call against the spec (CacheHistoryTrace)'
                           if pid in ('C06', 'C08') else
                           'explicit TLA+ spec (TaskValues: grammar + transcribed Norm/Ser/Deser/DepsOf) checked with TLC over the whole bounded grammar; every case replayed on the real code and judged by the observation spec (TaskValuesObs)'
                           if pid in ('C07', 'C09', 'C15') else
+                          'explicit TLA+ spec (LocalPaths / TaskDiagram: bounded grammar + transcribed algorithm + property-level sets) checked with TLC; every case replayed on the real code and judged by the observation spec'
+                          if pid in ('C18', 'C20') else
                           'explicit TLA+ spec (LabRunAbs/LabRun) model-checked with TLC + trace validation of real executions against the property-level spec, schedules generated by TLC'),
         })
     m = {
@@ -112,7 +124,9 @@ def main():
                      'kind_free_text': 'TLC 1.8 on CacheMap/CacheHistory/CacheHistoryTrace; lv/rigs/history.py replays histories on real Labs'},
                     {'name': 'tlc-values', 'path': '/verif/spec/TaskValues.tla', 'serves_properties': ['C07', 'C09', 'C15'],
                      'kind_free_text': 'TLC 1.8 on TaskValues/TaskValuesObs; lv/rigs/values.py drives the real code through every case'},
-                    {'name': 'tlc-labrun', 'path': '/verif/spec/LabRun.tla', 'serves_properties': sorted(p for p in CHECKS if p not in ('C12', 'C13', 'C06', 'C08', 'C07', 'C09', 'C15')),
+                    {'name': 'tlc-pure', 'path': '/verif/spec/LocalPaths.tla', 'serves_properties': ['C18', 'C20'],
+                     'kind_free_text': 'TLC 1.8 on LocalPaths/LocalPathsObs and TaskDiagram/TaskDiagramObs; lv/rigs/paths.py and lv/rigs/diagram.py replay every case'},
+                    {'name': 'tlc-labrun', 'path': '/verif/spec/LabRun.tla', 'serves_properties': sorted(p for p in CHECKS if p not in ('C12', 'C13', 'C06', 'C08', 'C07', 'C09', 'C15', 'C18', 'C20')),
                      'kind_free_text': 'TLC 1.8 on explicit TLA+ specifications; Python rigs drive /repo along TLC behaviours and record traces'}],
         'checks': checks,
         'notes': 'see DESIGN.md; known findings and fixed defects in known_findings.json',
